@@ -2767,7 +2767,14 @@ func arrayLit(n *node) {
 	index := make([]int, len(child))
 	var max, prev int
 
+	ltyp := n.typ // type of the array or slice
 	ntyp := n.typ.resolveAlias()
+	isPtr := ntyp.cat == ptrT
+	if isPtr {
+		// The & is elided in an element of a composite literal of pointers.
+		ltyp = ntyp.val
+		ntyp = ltyp.resolveAlias()
+	}
 	for i, c := range child {
 		if c.kind == keyValueExpr {
 			values[i] = genDestValue(ntyp.val, c.child[1])
@@ -2782,17 +2789,22 @@ func arrayLit(n *node) {
 		}
 	}
 
-	typ := n.typ.frameType()
+	typ := ltyp.frameType()
 	kind := typ.Kind()
 	n.exec = func(f *frame) bltn {
 		var a reflect.Value
 		if kind == reflect.Slice {
 			a = reflect.MakeSlice(typ, max, max)
 		} else {
-			a, _ = n.typ.zero()
+			a, _ = ltyp.zero()
 		}
 		for i, v := range values {
 			a.Index(index[i]).Set(v(f))
+		}
+		if isPtr {
+			p := reflect.New(typ)
+			p.Elem().Set(a)
+			a = p
 		}
 		value(f).Set(a)
 		return next
@@ -2806,18 +2818,29 @@ func mapLit(n *node) {
 	if n.nleft == 1 {
 		child = n.child[1:]
 	}
-	typ := n.typ.frameType()
+	ltyp := n.typ // type of the map
+	isPtr := ltyp.cat == ptrT
+	if isPtr {
+		// The & is elided in an element of a composite literal of pointers.
+		ltyp = ltyp.val
+	}
+	typ := ltyp.frameType()
 	keys := make([]func(*frame) reflect.Value, len(child))
 	values := make([]func(*frame) reflect.Value, len(child))
 	for i, c := range child {
-		keys[i] = genDestValue(n.typ.key, c.child[0])
-		values[i] = genDestValue(n.typ.val, c.child[1])
+		keys[i] = genDestValue(ltyp.key, c.child[0])
+		values[i] = genDestValue(ltyp.val, c.child[1])
 	}
 
 	n.exec = func(f *frame) bltn {
 		m := reflect.MakeMap(typ)
 		for i, k := range keys {
 			m.SetMapIndex(k(f), values[i](f))
+		}
+		if isPtr {
+			p := reflect.New(typ)
+			p.Elem().Set(m)
+			m = p
 		}
 		value(f).Set(m)
 		return next
